@@ -179,3 +179,16 @@ def is_action_call(stmt):
         return False
     n = stmt.expr.strip().split("(")[0].strip()
     return bool(re.match(r"^[A-Z]\w*Action$", n.split(".")[0])) or bool(re.match(r"^[A-Z]\w*$", n))
+
+
+def awaits_flow(stmt, name):
+    """Does the statement wait for flow `name` (await/bare call/`$x = await`, or a `when`
+    whose case spec is that flow)?"""
+    if stmt.kind in ("await", "call") or (stmt.kind == "assign" and stmt.op == "await"):
+        return flow_call_name(stmt) == name
+    if stmt.kind == "when":
+        for spec, _ in stmt.branches:
+            sp = spec.strip()
+            if sp == name or sp.startswith(name + " ") or sp.startswith(name + "("):
+                return True
+    return False
